@@ -29,6 +29,14 @@ def fitsMs (d : Nat) : Prop := d / nsPerMs < 4294967296
 instance (d : Nat) : Decidable (fitsS d) := by unfold fitsS; infer_instance
 instance (d : Nat) : Decidable (fitsMs d) := by unfold fitsMs; infer_instance
 
+/-- Go's `int64(x)` of a mathematical integer: two's-complement wrap into [-2^63, 2^63) -/
+def wrap64 (n : Int) : Int := (n + 9223372036854775808) % 18446744073709551616 - 9223372036854775808
+/-- a data point's elapsed time (toDataPointsProto / toDataPoints): `int64(v.ElapsedTime)` out, `time.Duration(v.ElapsedTime)`
+    back - a signed 64-bit nanosecond count at both ends, no change of resolution, no clamping -/
+def elapsedToWire (d : Int) : Int := wrap64 d
+def elapsedFromWire (w : Int) : Int := wrap64 w
+def fitsI64 (d : Int) : Prop := -9223372036854775808 ≤ d ∧ d < 9223372036854775808
+
 /-- table lookup as the converters' switch statements do it -/
 def lookup (t : List (Int × Int)) (k : Int) : Option Int := (t.find? (·.1 = k)).map (·.2)
 
